@@ -35,6 +35,14 @@ inductive NameAt (m : Bytes) : (start pos : Nat) → List Bytes → (e d : Nat) 
 /-- length of the uncompressed wire form: one length octet per label, the label octets, the root octet -/
 def wireLen (ls : List Bytes) : Nat := (ls.map (fun l => l.length + 1)).sum + 1
 
+/-- RFC 1035 §3.1 wire form of an uncompressed name: every label as a length octet followed by
+    its octets, then the root octet -/
+def wireLabels : List Bytes → Bytes
+  | [] => []
+  | l :: rest => UInt8.ofNat l.length :: l ++ wireLabels rest
+
+def wireOf (ls : List Bytes) : Bytes := wireLabels ls ++ [0]
+
 /-- presentation form without the trailing dot: labels joined by `.` (octets are not escaped) -/
 def text : List Bytes → Bytes
   | [] => []
